@@ -25,6 +25,10 @@
 // response and after, while sessions are added, updated and deleted and the standby applies those
 // changes from the stream, and is then handed over.
 //
+// Layer F (layerf_test.go) lets the active's session manager change sessions while the GET handler
+// is in the middle of building a full-sync reply (right before / right after its table read), then
+// keeps the active quiet while further full syncs are made (standby reconnections, a second party).
+//
 // The oracles are written from the property statement: (i) right after a completed full sync the
 // standby's table equals the snapshot the active served; (ii) the changes pushed while the stream
 // is connected are applied on the standby without loss, duplication or reordering; (iii) with the
@@ -72,7 +76,7 @@ const (
 
 func TestMain(m *testing.M) {
 	run = vk.Start("C13", "exploration")
-	run.Rule("layer A: histories over {add(i), update(i), delete(i) on the active (valid against its table, ids up to renaming), heartbeat, disconnect, reconnect(=full sync + attach)} executed on the real PushChange -> pending queue -> handleSSEData and the real GET handler -> performFullSync with an in-memory transport, in two delivery modes (immediate; one-step lag, where a heartbeat overtakes the queued change), exhaustively to the stated depth and by seeded random walks of 10-60 steps with random field-level updates and failed full syncs; the standby store and received-session map are judged after every step. layer B: seeded scenarios on a real active and standby (Start() on both) over loopback HTTP/SSE through a harness proxy: 1-4 connection cycles with changes before the snapshot, between snapshot and stream attach (gap), while connected (bursts of 1..1200 by 1-3 pushers, stalled link), while away, failed GETs/stream attaches, clean and aborted stream cuts (also mid-burst); clause (i) is judged when the stream request reaches the proxy, (ii) per connected interval from the push log / wire log / standby store log, (iii) at every settled point. non-trivial = layer A: distinct history with a delivered change or a full sync that had to change the standby's table; layer B: distinct observed scenario signature with at least one judged connected interval carrying obligated pushes. layer C (connection lifecycle): a real active, one or two real standbys (Start() on all) each behind its own relay that dials the active from a chosen loopback address (both standbys behind one address, or two addresses) and a harness witness stream from a third address; the relay ends the standby's side of a stream (EOF or reset) while the active's side is closed at once, or stays up and is still read, or stays up unread (half-open peer), and closes it later on command; it can hold the standby's next stream request until the old handler on the active has exited. Catalogue of opening episodes (scenario index mod 8: old stream outlives the new registration then goes; the same half-open with a burst in between; old handler gone before the new registration; natural order x3; two standbys one address x2; reconnect storm of 3-6 cuts with pushes in between; two standbys two addresses) followed by 2-8 random steps {cycle, close a lingering connection, close all, storm, burst}; after every step 1-5 (burst: 10-120) add/update/delete changes over <=4 session ids and a sentinel; clause (ii) is judged per standby and connected interval from the push log and the standby's store log, clause (iii) on every standby once the latest sentinel came through its stream. non-trivial (layer C) = distinct observed scenario signature with a judged push on a connection that began while another stream from the same address was registered. layer D (faults on the exchanges of a connection attempt): a real active and a real standby (Start() on both) with a harness front end in between that treats the standby's connection attempts one by one as planned, each of the two HTTP exchanges independently: stream request {accepted, refused (connection closed without an answer), 503, 404, accepted and ended when the snapshot request arrives}, snapshot request {valid, refused, 500, 503, no answer until the standby's deadline, complete response with half the document, connection broken in the middle of the body, HTML page with status 200, JSON that is no sync message, empty body}; 2-5 episodes per scenario, each = cut of the present stream (EOF or reset), 0-4 changes on the active while the standby is held out, then 0-4 planned attempts drawn at random (45% accepted stream + faulted snapshot, 30% faulted stream, 10% clean in the middle of the plan, 15% both faulted; the first reconnect of scenario i starts with accepted stream + snapshot fault number i mod 9) with 0-2 changes each before the stream request is forwarded, before the snapshot request is forwarded and after the active served the snapshot, then unplanned (clean) attempts; 1-5 (one in five: 20-60) changes on the connected stream afterwards; the convergence clause is judged whenever the standby reports IsConnected() on a relayed stream and a sentinel pushed afterwards came through that stream with no request of the standby arriving or in progress meanwhile. non-trivial (layer D) = distinct sequence of observed attempt outcomes with a convergence point judged after a faulted attempt at which the active's table differed from what the standby held when its stream was cut. layer E (snapshots overlapping the live stream): a real active and a real standby started through Start() with FullSyncInterval 8 ms | 20 ms | 50 ms | 120 ms | default 5 min (scenario index mod 6; 0 = disabled in scenarios of a child process of their own) behind the layer-D front end with a snapshot side of its own: snapshot exchanges are handed over one at a time and the front end waits for the standby's statistics to report the full sync completed; 2-4 episodes per scenario = (re)connection after a cut (EOF or reset) with 0-4 changes while away, the connect-time snapshot held in two cases out of three, then 1-3 windows in which the next snapshot request the standby makes while the stream is up (waited for 3 intervals + 30 ms; none arriving is recorded and the changes are made on the stream all the same) is held, then 1-5 (one in six: 20-60) plain changes; a held exchange follows a script from a fixed catalogue (window counter + 3*scenario index mod 11): changes before the request is forwarded to the active (they are in the snapshot) and after the active built the response (they are not; on a stream that is being read the driver waits until the standby has applied them): update / delete / add / delete+re-add / three updates of a session of the snapshot, add of an absent session (+ updates of it), changes before only, mixed, 0-3 + 0-4 random, none, and stream cut + reconnection while the response is held; a convergence point is judged after every connection, window and batch. non-trivial (layer E) = distinct scenario signature (interval + per window: where, script, request seen, numbers of changes, applied before release, outcome) with a convergence point judged after a snapshot that was handed over after changes it does not contain")
+	run.Rule("layer A: histories over {add(i), update(i), delete(i) on the active (valid against its table, ids up to renaming), heartbeat, disconnect, reconnect(=full sync + attach)} executed on the real PushChange -> pending queue -> handleSSEData and the real GET handler -> performFullSync with an in-memory transport, in two delivery modes (immediate; one-step lag, where a heartbeat overtakes the queued change), exhaustively to the stated depth and by seeded random walks of 10-60 steps with random field-level updates and failed full syncs; the standby store and received-session map are judged after every step. layer B: seeded scenarios on a real active and standby (Start() on both) over loopback HTTP/SSE through a harness proxy: 1-4 connection cycles with changes before the snapshot, between snapshot and stream attach (gap), while connected (bursts of 1..1200 by 1-3 pushers, stalled link), while away, failed GETs/stream attaches, clean and aborted stream cuts (also mid-burst); clause (i) is judged when the stream request reaches the proxy, (ii) per connected interval from the push log / wire log / standby store log, (iii) at every settled point. non-trivial = layer A: distinct history with a delivered change or a full sync that had to change the standby's table; layer B: distinct observed scenario signature with at least one judged connected interval carrying obligated pushes. layer C (connection lifecycle): a real active, one or two real standbys (Start() on all) each behind its own relay that dials the active from a chosen loopback address (both standbys behind one address, or two addresses) and a harness witness stream from a third address; the relay ends the standby's side of a stream (EOF or reset) while the active's side is closed at once, or stays up and is still read, or stays up unread (half-open peer), and closes it later on command; it can hold the standby's next stream request until the old handler on the active has exited. Catalogue of opening episodes (scenario index mod 8: old stream outlives the new registration then goes; the same half-open with a burst in between; old handler gone before the new registration; natural order x3; two standbys one address x2; reconnect storm of 3-6 cuts with pushes in between; two standbys two addresses) followed by 2-8 random steps {cycle, close a lingering connection, close all, storm, burst}; after every step 1-5 (burst: 10-120) add/update/delete changes over <=4 session ids and a sentinel; clause (ii) is judged per standby and connected interval from the push log and the standby's store log, clause (iii) on every standby once the latest sentinel came through its stream. non-trivial (layer C) = distinct observed scenario signature with a judged push on a connection that began while another stream from the same address was registered. layer D (faults on the exchanges of a connection attempt): a real active and a real standby (Start() on both) with a harness front end in between that treats the standby's connection attempts one by one as planned, each of the two HTTP exchanges independently: stream request {accepted, refused (connection closed without an answer), 503, 404, accepted and ended when the snapshot request arrives}, snapshot request {valid, refused, 500, 503, no answer until the standby's deadline, complete response with half the document, connection broken in the middle of the body, HTML page with status 200, JSON that is no sync message, empty body}; 2-5 episodes per scenario, each = cut of the present stream (EOF or reset), 0-4 changes on the active while the standby is held out, then 0-4 planned attempts drawn at random (45% accepted stream + faulted snapshot, 30% faulted stream, 10% clean in the middle of the plan, 15% both faulted; the first reconnect of scenario i starts with accepted stream + snapshot fault number i mod 9) with 0-2 changes each before the stream request is forwarded, before the snapshot request is forwarded and after the active served the snapshot, then unplanned (clean) attempts; 1-5 (one in five: 20-60) changes on the connected stream afterwards; the convergence clause is judged whenever the standby reports IsConnected() on a relayed stream and a sentinel pushed afterwards came through that stream with no request of the standby arriving or in progress meanwhile. non-trivial (layer D) = distinct sequence of observed attempt outcomes with a convergence point judged after a faulted attempt at which the active's table differed from what the standby held when its stream was cut. layer E (snapshots overlapping the live stream): a real active and a real standby started through Start() with FullSyncInterval 8 ms | 20 ms | 50 ms | 120 ms | default 5 min (scenario index mod 6; 0 = disabled in scenarios of a child process of their own) behind the layer-D front end with a snapshot side of its own: snapshot exchanges are handed over one at a time and the front end waits for the standby's statistics to report the full sync completed; 2-4 episodes per scenario = (re)connection after a cut (EOF or reset) with 0-4 changes while away, the connect-time snapshot held in two cases out of three, then 1-3 windows in which the next snapshot request the standby makes while the stream is up (waited for 3 intervals + 30 ms; none arriving is recorded and the changes are made on the stream all the same) is held, then 1-5 (one in six: 20-60) plain changes; a held exchange follows a script from a fixed catalogue (window counter + 3*scenario index mod 11): changes before the request is forwarded to the active (they are in the snapshot) and after the active built the response (they are not; on a stream that is being read the driver waits until the standby has applied them): update / delete / add / delete+re-add / three updates of a session of the snapshot, add of an absent session (+ updates of it), changes before only, mixed, 0-3 + 0-4 random, none, and stream cut + reconnection while the response is held; a convergence point is judged after every connection, window and batch. non-trivial (layer E) = distinct scenario signature (interval + per window: where, script, request seen, numbers of changes, applied before release, outcome) with a convergence point judged after a snapshot that was handed over after changes it does not contain. layer F (sessions change while the active builds a full-sync reply, then full syncs while it is quiet): the layer-E set-up (FullSyncInterval default, 50 ms in one scenario out of four); after the first connection 2-3 episodes per scenario = cut of the stream (EOF or reset), 0-2 changes while the standby is away, then a reconnection during which the active's session store, inside the whole-table read made by the GET /ha/sessions handler, makes changes on the active (store first, then PushChange): 1-3 right before the read and/or 1-3 right after it (scenario index + episode mod 4: after | before and after | after | before; first change after the read from {add of an absent session, update, delete, any}, the rest random), in two cases out of three followed by a sentinel pushed from the same place, which the driver then (three cases out of four) waits for on the standby before going on; then no change at all on the active while 1-2 full syncs are made by the standby (stream cut, reconnection, snapshot exchange recorded by the front end and its completion read from the standby's statistics) and, in one episode out of three, by a second party (plain GET to the active) before and/or after them; every reply served in that quiet phase is compared with the active's table, the standby's table with the reply right after the completed full sync (only when the sentinel pushed after the read was applied from the previous stream, so that nothing pushed earlier can still arrive), then a convergence point, 1-4 plain changes and another point. non-trivial (layer F) = distinct scenario signature with a reply judged in the quiet phase of an episode whose earlier reply was built with changes right after the table read")
 	run.Assume("a push is 'made while the stream is connected' iff PushChange was called after the harness observed IsConnected()==true for that stream and returned nil before the harness asked the proxy to cut it; 'lost' is decided without a clock: a later push (sentinel) has been applied through the same FIFO stream")
 	run.Assume("the proxy's copy of the SSE stream (wire log) and the captured zap warnings are used only to name the witness class (where the message disappeared), never to decide a violation")
 	run.Assume("reconnect back-off is shortened through a verif hook (fields backoff/backoffMin/backoffMax); RequestTimeout is set above the scenario length (http.Client.Timeout also bounds the SSE stream)")
@@ -80,6 +84,7 @@ func TestMain(m *testing.M) {
 	run.Assume("layer C: a standby's stream is 'connected' for the harness from the moment the relay has the active's 200 for a stream request issued after the previous interval ended AND the standby's IsConnected() is true, until the harness cuts it or either side ends it; 'the handler of an old stream has exited' is read from the active's own Info log line (sequencing and evidence counters only, never a verdict)")
 	run.Assume("layer C, verdict 'a connected stream receives nothing' is decided on logical progress and state, not on time: after two sentinels met an idle standby a further one is pushed; the witness stream has received it and K>=25 heartbeats after it (K*interval >= 2.5 s nominal); the active's pending queue and every channel of its client table are empty (verif hook VerifC13SSEClientBacklog: no handler is lagging); the stream is up on both sides; and since before that sentinel was pushed no byte has arrived on the stream's upstream connection (kernel counter tcpi_bytes_received, self-checked per scenario), no event was relayed, the standby applied nothing; all of it observed twice, K heartbeats apart. Anything less is inconclusive")
 	run.Assume("layer D: a connection attempt, for the evidence counters and the witness class only, is a stream request seen by the front end together with the snapshot request that follows it (or a snapshot request not preceded by a stream request of its own); the verdict does not depend on the grouping. The standby's deadline for the snapshot request is shortened to 400 ms in a third of the scenarios through a verif hook (field config.RequestTimeout after construction, so that the http.Client timeout that also bounds the SSE stream stays long); an unplanned expiry of that deadline under load is just one more failed attempt")
+	run.Assume("layer F: 'the active is quiet' = the harness, which is the only writer of the active's session store, makes no change from the return of the store's whole-table read in which it made the last ones until the convergence point's sentinel; a reply served in between is the active's snapshot of a table that is not changing, so it must be that table. The callbacks in the store's read run on the handler's goroutine, with no lock of the store held, as a session manager running concurrently with the handler could")
 	run.Assume("layer E: a snapshot request is 'made while the stream is up' iff it reached the front end while a stream was being relayed and the standby reported IsConnected() (label for evidence counters and witness class only). The convergence clause is judged when the standby reports IsConnected() on a relayed stream, a sentinel pushed after every other change has been applied through that stream, every snapshot response the active has built has been handed over and the standby's Stats().LastSyncTime has moved past the hand-over (sequencing only: otherwise the point is not judged), and snapshot requests arriving meanwhile are kept waiting unanswered by the front end (a link may be that slow; they carry nothing). The push-order clause is judged between two such points on one stream: exactly the pushes in push order when no snapshot was handed over in between, no push missing otherwise")
 	debug.SetGCPercent(800)
 	if child {
@@ -117,6 +122,11 @@ func TestMain(m *testing.M) {
 	run.Floor("E_convergence_points_after_held_snapshot_window", 40)
 	run.Floor("E_convergence_points_after_snapshot_handed_over_after_changes_it_does_not_contain", 25)
 	run.Floor("E_segments_judged_exactly_the_pushes_in_push_order", 100)
+	run.Floor("F_snapshots_built_with_changes_after_table_read", 40)
+	run.Floor("F_snapshots_served_while_quiet_after_snapshot_built_with_changes_after_table_read", 50)
+	run.Floor("F_quiet_full_syncs_of_standby_completed", 60)
+	run.Floor("F_quiet_full_syncs_judged_clause_i", 15)
+	run.Floor("F_points_after_resync_while_quiet_following_snapshot_built_while_sessions_changed", 50)
 	go watchdog()
 	code := m.Run()
 	flushViolations()
@@ -421,6 +431,7 @@ type recStore struct {
 	seen  map[uint64]int64 // op id -> stamp of (last) Put
 	snaps int
 	block func(o *storeOp) // optional: called before a mutation is performed (may block)
+	onRead *readHook       // optional, one-shot: callbacks around the next GetAllSessions
 }
 
 func newRecStore(clock *int64) *recStore {
@@ -432,11 +443,43 @@ func newRecStore(clock *int64) *recStore {
 func (s *recStore) GetSession(id string) (*ha.SessionState, bool) { return s.inner.GetSession(id) }
 func (s *recStore) GetSessionCount() int                          { return s.inner.GetSessionCount() }
 func (s *recStore) GetAllSessions() []ha.SessionState {
+	s.mu.Lock()
+	h := s.onRead
+	s.onRead = nil
+	s.mu.Unlock()
+	if h != nil && h.before != nil {
+		h.before()
+	}
 	r := s.inner.GetAllSessions()
 	s.mu.Lock()
 	s.snaps++
 	s.mu.Unlock()
+	if h != nil && h.after != nil {
+		h.after()
+	}
 	return r
+}
+
+// readHook is a one-shot pair of callbacks around the next whole-table read of a store (layer F:
+// the session manager changes sessions while the active is building a full-sync reply). Neither is
+// called with a lock of the store held.
+type readHook struct{ before, after func() }
+
+func (s *recStore) armRead(h *readHook) {
+	s.mu.Lock()
+	s.onRead = h
+	s.mu.Unlock()
+}
+
+// disarmRead withdraws a hook no read has taken; false: a read took it.
+func (s *recStore) disarmRead(h *readHook) bool {
+	s.mu.Lock()
+	defer s.mu.Unlock()
+	if s.onRead == h {
+		s.onRead = nil
+		return true
+	}
+	return false
 }
 
 func (s *recStore) PutSession(sess *ha.SessionState) error {
